@@ -8,7 +8,7 @@ Local Open Scope Z_scope.
 Definition run_case (cfg : list Z) (ths : list (list (list Z))) (sched : list nat) (fuel : nat)
   : list (nat * ev) * bool :=
   match nth 0 cfg 0 with
-  | 0 => FreeList.run_case cfg ths sched fuel
+  | 0 => FreeList.fl_run_case cfg ths sched fuel
   | 1 => FreeListTagged.trun_case cfg ths sched fuel
   | 2 => FreeListCached.crun_case_fl cfg ths sched fuel
   | 3 => FreeListCached.crun_case_tagged cfg ths sched fuel
